@@ -117,7 +117,34 @@ Theorem strips_partition_in_order_partial : forall dims eltsz buf,
 Proof. exact strips_partition_small_lemma. Qed.
 Print Assumptions strips_partition_in_order_partial.
 
+(** Every object is copied exactly once as far as the tag tables go: each member tag under which vgroup_insert
+    copies an SDS / image / vdata is among the tags the top-level pass of that kind searches to skip objects already
+    copied (so a member is not copied again as a lone object), SDS and image tags are accepted by the name check of
+    the option table, and no tag is handled as both kinds.  All six lists are regenerated from hrepack_list.c and
+    hrepack_lsttable.c (switch labels of vgroup_insert; list_table_search calls or static tag arrays of list_sds,
+    list_gr, list_vs). *)
+Theorem traversal_tags_consistent :
+  (forall t, In t insert_sds_tags -> In t list_sds_search_tags /\ In t compressible_tags) /\
+  (forall t, In t insert_image_tags -> In t list_gr_search_tags /\ In t compressible_tags) /\
+  (forall t, In t insert_vs_tags -> In t list_vs_search_tags) /\
+  (forall t, In t insert_sds_tags -> ~ In t insert_image_tags).
+Proof. exact traversal_tags_lemma. Qed.
+Print Assumptions traversal_tags_consistent.
+
+(** Metadata plumbing of copy_gr, copy_sds, copy_vs (a syntactic model: the argument lists of the inquiring,
+    creating and transferring calls, regenerated from the sources): what the input reports -- name, number type WITH
+    its flavour flags, component count, rank, dimensions, interlace, field list, record count -- is the very
+    variable the output is created / written with, none of them is assigned in between, and data are written from
+    the buffer, with the geometry and in the interlace they were read. *)
+Theorem copy_plumbing : copy_gr_plumbing = true /\ copy_sds_plumbing = true /\ copy_vs_plumbing = true.
+Proof. exact copy_plumbing_lemma. Qed.
+Print Assumptions copy_plumbing.
+
 (** Non-vacuity: concrete, non-trivial states meeting the hypotheses. *)
+Example traversal_nonempty : In DFTAG_RI insert_image_tags /\ In DFTAG_RIG insert_image_tags /\ In DFTAG_NDG insert_sds_tags /\
+  nth_error copy_gr_created 3 = Some [100; 116; 121; 112; 101] /\ nth_error copy_gr_inquired 3 = Some [100; 116; 121; 112; 101].
+Proof. vm_compute. intuition. Qed.
+
 Example strip_walk_runs :
   strips [2; 3] 2 4 = Some [([0; 0], [1; 2]); ([0; 2], [1; 1]); ([1; 0], [1; 2]); ([1; 2], [1; 1])] /\
   strip_order [2; 3] 2 4 = Some [0; 1; 2; 3; 4; 5] /\
